@@ -95,6 +95,9 @@ DestroySeg ==  /\ "destroy_seg" \in ClientOps /\ phase = "live" /\ Budget /\ nse
 \* gr_face_featureval_for_lang(face, 0) (l = 0) or for the first language the font lists (l = 1): a fresh client-owned copy
 FeatVal(l) ==  /\ "featval" \in ClientOps /\ phase = "live" /\ Budget /\ nfvals < 2 /\ nfvals' = nfvals + 1 /\ hist' = Append(hist, Op("featval", l))
                /\ UNCHANGED <<phase, opts, kind, src, held, nameDone, nfonts, nsegs, afterMake>>
+\* the client changes a value in the newest of its feature-value objects in place (gr_fref_set_feature_value)
+EditFval ==    /\ "edit_fval" \in ClientOps /\ phase = "live" /\ Budget /\ nfvals > 0 /\ hist' = Append(hist, Op("edit_fval", 0))
+               /\ UNCHANGED <<phase, opts, kind, src, held, nameDone, nfonts, nsegs, nfvals, afterMake>>
 DestroyFval == /\ "destroy_fval" \in ClientOps /\ phase = "live" /\ Budget /\ nfvals > 0 /\ nfvals' = nfvals - 1 /\ hist' = Append(hist, Op("destroy_fval", 0))
                /\ UNCHANGED <<phase, opts, kind, src, held, nameDone, nfonts, nsegs, afterMake>>
 \* make a segment, look at it, destroy it: one client step (lets short histories contain many shaping calls)
@@ -111,7 +114,7 @@ DestroyFace ==
   /\ UNCHANGED <<opts, kind, src, nameDone, nfonts, nsegs, nfvals, afterMake>>
 
 Next == \/ \E o \in OptSet, k \in Kinds, sr \in Srcs : MakeFace(o, k, sr)
-        \/ LabelQuery \/ FaceQuery \/ DestroyFval
+        \/ LabelQuery \/ FaceQuery \/ DestroyFval \/ EditFval
         \/ \E l \in {0, 1} : FeatVal(l)
         \/ \E p \in {0, 12} : MakeFont(p)
         \/ DestroyFont
